@@ -111,7 +111,9 @@ def mutate(rnd, data):
             data[min(pos, len(data) - 1)] = rnd.choice(b" \t\n=:#;\"[]a1\x00\xff\\")
         elif op < 0.95:
             # a word the library itself uses as a marker, in a place of its own or inside a line
-            data[pos:pos] = rnd.choice([b"_none_", b"[_none_]\n", b"\n[_none_]\n", b"(null)", b"_none_=", b"=_none_\n"])
+            data[pos:pos] = rnd.choice([b"_none_", b"[_none_]\n", b"\n[_none_]\n", b"(null)", b"_none_=", b"=_none_\n",
+                                        # text that means something to the formatting functions
+                                        b"%s", b"%n", b"%s%s%s%s%s%s", b"%99999999d", b"%%", b"%1$s", b"%*d", b"%ls", b"\\n", b"%c%c%c%c%c%c%c%c%c%c%hn"])
         else:
             data = data[:pos]
     return bytes(data)
@@ -186,6 +188,10 @@ def check_c04(exe, tier, seed, verdict):
                 d, c, m = rnd.choice(PARAMS[1:])
                 inputs.append((data, d, c, m))
     # every file of up to 4 (5) lines over a pool in which the library's own marker word appears as section, key and value
+    for v in (b"%s%s%s%s%s%s%s%s", b"%n", b"%99999999d", b"%%", b"100%", b"%1$s %2$s", b"%*.*f", b"%hhn%n%ln"):
+        for tmpl in (b"k=%b\n", b"[%b]\nk=1\n", b"%b=1\n", b"# %b\nk=1 # %b\n", b"k=\"%b\"\n", b"k=a\n %b\n"):
+            for d_, c_, m_ in (("=", "#", 0), ("=", "#", 1), (" =", "#;", 0)):
+                inputs.append((tmpl.replace(b"%b", v), d_, c_, m_))
     pool = [b"[_none_]", b"[a]", b"k=1", b"j=2", b"_none_=1", b"k=_none_", b"", b"_none_"]
     for n in range(1, 5 if tier == "quick" else 6):
         for tup in itertools.product(pool, repeat=n):
@@ -226,7 +232,7 @@ def check_c04(exe, tier, seed, verdict):
             continue          # reported above with the failing input
         verdict.violation("C04:envelope:%s" % e["rc"], {"kind": "class", "event": e}, "outside the envelope: %s (%d inputs)" % (json.dumps(e), e["n"]))
     cov = {"evaluations": len(inputs), "distinct_nontrivial": n_ok + n_parse,
-           "rule": "(plus every file of <= 4 lines over a pool in which the library's own marker word _none_ appears as section name, key and value, and that word among the mutations) every byte string of length <= %d over the %d-symbol structural alphabet (blank, tab, newline, = : # ; \" [ ] a 1, NUL, 0xff): %d strings with delimiter '=' comment '#', a sample with the other parameter sets (blank / mixed / no delimiters, JOIN_SAME_ENTRIES, PYTHON_STYLE); %d byte-level mutations (insert/delete/replace/truncate, 1-3 edits) of random conventional files of all grammars; random byte strings; very long lines of structural characters around BUFSIZ; %d cardinality sweeps (every count 0..%d, and around 128/256/512/1024, of: distinct sections with 0/1/2 keys, keys without / in one section, repetitions of one key, continuation lines, comment lines, keys without delimiter, re-opened sections - the counts at which the object's arrays and lists grow); %d run-length sweeps (one structural character repeated n times behind a key / a delimiter / a header or in front of an entry, n across the growth steps 120, 240, ... 7680, 8192 of the line buffer, with and without final newline, plain / blank / mixed delimiter sets). Each input: read; on success every listing, 17 getter calls on every key, 4 merges, write, re-read. Aggregated event classes validated by Envelope.tla; ASan/UBSan abort = violation with the input. non-trivial = read succeeded with >= 1 entry (%d) or failed with a parse error (%d)." % (
+           "rule": "(plus every file of <= 4 lines over a pool in which the library's own marker word _none_ appears as section name, key and value, and that word and printf conversion specifications as value, key, section name, comment, continuation - among the mutations) every byte string of length <= %d over the %d-symbol structural alphabet (blank, tab, newline, = : # ; \" [ ] a 1, NUL, 0xff): %d strings with delimiter '=' comment '#', a sample with the other parameter sets (blank / mixed / no delimiters, JOIN_SAME_ENTRIES, PYTHON_STYLE); %d byte-level mutations (insert/delete/replace/truncate, 1-3 edits) of random conventional files of all grammars; random byte strings; very long lines of structural characters around BUFSIZ; %d cardinality sweeps (every count 0..%d, and around 128/256/512/1024, of: distinct sections with 0/1/2 keys, keys without / in one section, repetitions of one key, continuation lines, comment lines, keys without delimiter, re-opened sections - the counts at which the object's arrays and lists grow); %d run-length sweeps (one structural character repeated n times behind a key / a delimiter / a header or in front of an entry, n across the growth steps 120, 240, ... 7680, 8192 of the line buffer, with and without final newline, plain / blank / mixed delimiter sets). Each input: read; on success every listing, 17 getter calls on every key, 4 merges, write, re-read. Aggregated event classes validated by Envelope.tla; ASan/UBSan abort = violation with the input. non-trivial = read succeeded with >= 1 entry (%d) or failed with a parse error (%d)." % (
                maxlen, len(alpha), nstr, nmut, ncount, 72 if tier == "quick" else 300, nrun, n_ok, n_parse),
            "samples": events[:4], "exhaustive": False, "event_classes": len(events), "crashing_inputs": crashes,
            "trusted_base": ["gcc ASan/UBSan", "driver watchdog (20 s alarm per case)", "TLC 1.8.0 (envelope classes)"]}
